@@ -423,6 +423,16 @@ class SR:
     def __repr__(self):
         return f"SR({z3.simplify(self.z)})"
 
+    def __format__(self, spec):
+        """how a symbolic number appears inside an f-string: a numeral as itself, an integer variable as <name> (so that a name
+        assembled from symbolic parts compares equal to the same name assembled elsewhere), anything else by its term"""
+        t = z3.simplify(self.z)
+        if z3.is_rational_value(t) and t.denominator_as_long() == 1:
+            return format(t.numerator_as_long(), spec)
+        if z3.is_app(t) and t.decl().kind() == z3.Z3_OP_TO_REAL and z3.is_const(t.arg(0)) and t.arg(0).decl().kind() == z3.Z3_OP_UNINTERPRETED:
+            return f"<{t.arg(0)}>"
+        return repr(self)
+
     def _b(op):
         def f(self, o):
             try:
